@@ -321,6 +321,9 @@ class Tie:
         add(3000, "text", 1 << 30, 1, tag="one-big-frame")
         add(3000, "text", 0, 0, ops=["c 1000 100000", "e 100000", "c 1000 100000", "e 100000"], tag="default-mfs-explicit")
         add(10, "rand", (1 << 30) + 1, 1, tag="mfs-too-large")
+        # one frame larger than SEEKABLE_BUFF_SIZE / ZSTD_BLOCKSIZE_MAX, offered in one piece with little output room: the inner
+        # ZSTD_compressStream consumes less than it is offered (checksum must cover the consumed bytes only); reads skip > BUFF bytes
+        add(200000 if ctx.quick else 450000, "text", 0, 1, level=1, ccap=1500, scap=40, tag="long-frame-partial-consumption")
         nrand = 14 if ctx.quick else 120
         for i in range(nrand):
             cls = rng.choice(["tiny", "tiny", "small", "small", "medium", "large"])
@@ -572,6 +575,15 @@ class Tie:
                     e = min(e, o + 64)             # long tables: the list-based model pays O(frames) per frame crossed
                 reads.append(("r", o, e - o))
                 last_end = e
+            for i in range(len(log)):               # skip-buffer boundaries: dummy decoding of exactly BUFF / BUFF+1 / 2*BUFF+5 bytes after a restart
+                if log[i][1] > 131072 + 8:
+                    reads += [("r", D[i] + 3, 2), ("r", D[i], 0), ("r", D[i] + 131072 + 9, 2),     # restart, then skip BUFF+9: two dummy calls
+                              ("r", D[i], 1), ("r", D[i] + 131072 + 1, 3),                          # from doff = start+1: skip exactly BUFF
+                              ("r", D[i], 1), ("r", D[i] + 131072, 2),                              # skip BUFF-1
+                              ("r", D[i], 0), ("r", D[i] + 131072 + 1, 1),                          # from the frame start: skip BUFF+1
+                              ("r", D[i] + 1, 0), ("r", D[i] + 131071, 4)]
+                    if log[i][1] > 2 * 131072 + 16:
+                        reads += [("r", D[i], 1), ("r", D[i] + 2 * 131072 + 5, 1)]
             if len(log) <= 2000:
                 reads.append(("r", 0, n))
         # decompressFrame: every frame for short logs, sampled otherwise; with exact, larger and too small dst
@@ -685,7 +697,7 @@ class Tie:
         cs = self.run_reads_c(specs)
         core.log("C20   reads (real code): %.1fs" % (_t.time() - t0))
         specs = [s for s in specs if not s.get("dead")]
-        model_max = 140000 if ctx.quick else 400000
+        model_max = 260000 if ctx.quick else 500000
         mcases = []
         for s in specs:
             cl = cs.get(s["id"], [])
@@ -1059,6 +1071,59 @@ class Tie:
             except (IndexError, KeyError, ValueError) as e:
                 self.report(self.corrupt_replay(v), "overlong-frame archive: unparsable output (%r)" % (e,), no_input=True)
 
+    def phase_io_fault(self):
+        """Transient I/O errors of a callback source (fault injection in the harness' own read/seek pair) on VALID archives:
+        after a call that failed with seekableIO every later call must return an error or exactly the content slice.
+        (Regression for finding 'seek-failure-stale-cache', repaired in /repo by c859e4f: a failed seek left the cache claiming the
+        new position and the next read of that frame continued from the old decoder position.)"""
+        ctx, rng = self.ctx, self.rng
+        x = bytes(range(0x30, 0x30 + 21))
+        xp = self.blob(x, "x")
+        scen = []          # (cf, [commands]) ; reads are ('r', off, len), faults ('cbfail', kind, k)
+        base = [("r", 15, 2), ("cbfail", "seek", 1), ("r", 1, 3), ("r", 1, 3), ("r", 1, 3), ("r", 0, 21)]
+        for cf in (0, 1):
+            scen.append((cf, base))
+            scen.append((cf, [("r", 8, 2), ("cbfail", "seek", 1), ("r", 15, 1), ("r", 16, 2), ("r", 14, 7), ("cbfail", "read", 1), ("r", 0, 5), ("r", 0, 5), ("r", 2, 9)]))
+        for _ in range(6 if ctx.quick else 60):
+            cmds = []
+            for _ in range(rng.randint(3, 9)):
+                if rng.random() < 0.35:
+                    cmds.append(("cbfail", rng.choice(["seek", "seek", "read"]), rng.choice([1, 1, 2, 3])))
+                o = rng.randint(0, 21)
+                cmds.append(("r", o, rng.randint(0, 21 - o)))
+            scen.append((rng.choice([0, 1]), cmds))
+        for k, (cf, cmds) in enumerate(scen):
+            ap = self.path("iof%d.zst" % k)
+            text = ["content_file %s" % xp, "cinit 3 %d 7" % cf, "finish 1000 1000", "save %s" % ap, "open cb"]
+            text += ["%s %s %s" % c for c in cmds] + ["close"]
+            rc, cl, cerr = self.run_c("\n".join(text) + "\n", timeout=30, linebuf=True)
+            rl = [l for l in cl if l.startswith("r ")]
+            reads = [c for c in cmds if c[0] == "r"]
+            replay = dict(kind="io-fault", content_hex=x.hex(), cf=cf, mfs=7, level=3, mode="cb", commands=[list(c) for c in cmds], rc=rc, seed=ctx.seed)
+            try:
+                if rc != 0 or len(rl) != len(reads):
+                    raise Fail("crash / hang (rc=%d) with a callback source that fails transiently: %s" % (rc, cerr[-300:]))
+                failed_before = False
+                for j, (rd, ln) in enumerate(zip(reads, rl)):
+                    d = kv(ln)[2]
+                    off, n = rd[1], rd[2]
+                    if d["ret"].startswith("E"):
+                        failed_before = True
+                        continue
+                    if d["ret"] != str(n) or d.get("data", "-") != (x[off:off + n].hex() or "-"):
+                        done = " ; ".join("%s %s %s" % c for c in cmds)
+                        self.report(dict(replay, failing_read=j, observed=ln[:300]),
+                                    "a read after a transient I/O error of the callback source returns success with wrong bytes. Repro: content 30..44, initCStream(level 3, checksumFlag %d, maxFrameSize 7), callback access, "
+                                    "commands [%s] (cbfail seek k = the k-th next seek callback fails once): read #%d decompress(dst, %d, %d) returns %s "
+                                    "with bytes %s, content is %s" % (cf, done, j, n, off, d["ret"], d.get("data"), x[off:off + n].hex()),
+                                    )
+                        break
+                ctx.count(("io-fault", cf, any(c[0] == "cbfail" and c[1] == "seek" for c in cmds), any(c[0] == "cbfail" and c[1] == "read" for c in cmds)))
+            except Fail as e:
+                self.report(replay, "I/O fault injection: " + str(e))
+            except (IndexError, KeyError, ValueError) as e:
+                self.report(replay, "I/O fault injection: unparsable output (%r)" % (e,), no_input=True)
+
     def phase_maxframes(self):
         """ZSTD_seekable_logFrame refuses the (MAXFRAMES+1)-th frame (hypothesis 'lenN log <= MAXFRAMES' of the table theorems is
         enforced by the code): direct oracle on the real code, 2^27 log entries (1.6 GB, ~1 s); the model's log_frame has the
@@ -1239,6 +1304,8 @@ def replay(ctx):
         t.phase_overlong_frame()
     elif kind == "maxframes":
         t.phase_maxframes()
+    elif kind == "io-fault":
+        t.phase_io_fault()
     elif kind == "corrupt" and rp.get("archive_hex") is not None:
         v = dict(s=None, arch=bytes.fromhex(rp["archive_hex"]), cls="J", note=rp.get("note", ""), log=[], cf=0, id="k0", mode=rp.get("mode") or "mem",
                  reads=[tuple(r) for r in rp.get("reads", [])])
@@ -1270,7 +1337,7 @@ def run(ctx):
     r = ctx.prove()
     t = Tie(ctx, rng)
     import time as _time
-    for ph in (t.phase_rawtable, t.phase_archives, t.phase_overlong_frame, t.phase_corrupt, t.phase_short_frame, t.phase_maxframes):
+    for ph in (t.phase_rawtable, t.phase_overlong_frame, t.phase_short_frame, t.phase_io_fault, t.phase_archives, t.phase_corrupt, t.phase_maxframes):
         t0 = _time.time()
         ph()
         core.log("C20 %s: %.1fs (evaluations so far %d)" % (ph.__name__, _time.time() - t0, ctx.cov["evaluations"]))
